@@ -482,6 +482,8 @@ func runC01(c *Ctx) {
 	m.ruleCloneTree(c)
 	c.rule("R-REBUILD-USED", 2, "the subtree returned by the in-place rebuild replaces the subtree that was handed to it (returned to the caller or stored in a link), never dropped")
 	m.ruleRebuildUsed(c)
+	m.ruleLinkEdits(c)
+	m.ruleReadOnly(c)
 	var yf []*ssa.Function
 	for _, t := range [][2]string{{"node", "inorder"}, {"node", "inorderAfter"}, {"Tree", "Inorder"}, {"Tree", "InorderAfter"}} {
 		fn := P.Func("stree", t[0], t[1])
@@ -665,6 +667,10 @@ func runC03(c *Ctx) {
 		return
 	}
 	m.ruleCursorGuard(c)
+	c.rule("R-PATH-COMPLETE", 1, "the search that builds a cursor's path records every node it visits: no iteration of the descent loop leaves the path as it was")
+	c.rule("R-PATH-FRESH", 1, "the path stored in a new Cursor is freshly allocated: not a buffer kept in (or loaded from) the tree")
+	m.rulePathComplete(c)
+	m.ruleReadOnly(c)
 	c.rule("R-ASCEND-GATED", 2, "Next (Prev) shortens or drops the path only after the current node's large-side (small-side) child has been read on that path: the in-order neighbour is an ancestor only when that subtree is empty")
 	m.ruleAscendGated(c)
 	// Tree.Cursor(key) is built from the search path: the sign discipline of its comparisons is part of
@@ -944,6 +950,11 @@ func runC04(c *Ctx) {
 		sm.ruleRelink(c)
 		sm.ruleRootFlow(c)
 		sm.ruleRebuildUsed(c)
+		sm.ruleLinkEdits(c)
+		sm.ruleReadOnly(c)
+		c.rule("R-PATH-FRESH", 1, "the path stored in a new Cursor is freshly allocated: not a buffer kept in (or loaded from) the tree")
+		c.rule("R-PATH-COMPLETE", 1, "the search that builds a cursor's path records every node it visits")
+		sm.rulePathComplete(c)
 	}
 	if seek := P.Func("omap", "Iter", "Seek"); seek != nil {
 		cF := P.Field("omap", "Iter", "c")
@@ -1543,6 +1554,43 @@ func (m *streeModel) ruleSiblingAgree(c *Ctx) {
 			}
 		}
 		sortStrings(diff)
+		// every answer other than a constant false is given after consulting the finder: a shortcut that says
+		// "yes" on its own evidence is not backed by what the move will do
+		var finder *ssa.Call
+		allInstrs(has, func(in ssa.Instruction) {
+			if call, ok := in.(*ssa.Call); ok {
+				if cal := staticCallee(&call.Call); cal != nil && cal.Name() == pr[2] {
+					finder = call
+				}
+			}
+		})
+		if finder != nil {
+			var chk func(v ssa.Value, at *ssa.BasicBlock, seen map[ssa.Value]bool)
+			chk = func(v ssa.Value, at *ssa.BasicBlock, seen map[ssa.Value]bool) {
+				if seen[v] {
+					return
+				}
+				seen[v] = true
+				if k, ok := v.(*ssa.Const); ok && k.Value != nil && k.Value.String() == "false" {
+					return
+				}
+				if ph, ok := v.(*ssa.Phi); ok {
+					for i, e := range ph.Edges {
+						chk(e, ph.Block().Preds[i], seen)
+					}
+					return
+				}
+				if !(finder.Block() == at || finder.Block().Dominates(at)) {
+					diff = append(diff, fmt.Sprintf("%s can answer %s at %s without consulting %s", pr[0], ksym(v), P.pos(at.Instrs[len(at.Instrs)-1].Pos()), pr[2]))
+				}
+			}
+			allInstrs(has, func(in ssa.Instruction) {
+				if ret, ok := in.(*ssa.Return); ok && len(ret.Results) == 1 {
+					chk(ret.Results[0], ret.Block(), map[ssa.Value]bool{})
+				}
+			})
+			sortStrings(diff)
+		}
 		c.judge(len(diff) == 0, "R-SIBLING-AGREE", key, has.Pos(), fmt.Sprintf("both apply %d identical tests to %s's results", len(a), pr[2]), strings.Join(diff, "; ")+": the predicate no longer predicts what the move does")
 	}
 }
@@ -1652,6 +1700,25 @@ func (m *streeModel) ruleRebuildUsed(c *Ctx) {
 			}
 			walk(call)
 			c.judge(used, "R-REBUILD-USED", key, call.Pos(), "result returned or stored in a link", "the rebuilt subtree is dropped: the rebuild relinks the nodes in place, so the pointer still held (the old subtree root) now reaches only part of the elements")
+			// the node count handed to the rebuild, when it is the tree's cached count, is the count of the
+			// tree as rebuilt: the cached count is not adjusted afterwards
+			if sizeF := m.countField(); len(call.Call.Args) > 1 && sizeF != nil {
+				if _, f := loadedField(call.Call.Args[1]); f != nil && sameField(f, sizeF) {
+					late, wit := reachesWithout(P, call, false, func(in2 ssa.Instruction) bool {
+						st, ok := in2.(*ssa.Store)
+						if !ok {
+							return false
+						}
+						fa, ok := st.Addr.(*ssa.FieldAddr)
+						if !ok {
+							return false
+						}
+						_, f2 := fieldVarOf(fa)
+						return sameField(f2, sizeF)
+					}, func(ssa.Instruction) bool { return false })
+					c.judge(!late, "R-REBUILD-USED", key+":count", call.Pos(), "the cached count is final when it is handed to the rebuild", "the rebuild is given the cached element count, which is adjusted only afterwards ("+wit+"): the count does not match the nodes under the root, so the rebuild walks off the vine or leaves a tail unbalanced")
+				}
+			}
 		})
 	}
 }
@@ -1751,5 +1818,337 @@ func (m *streeModel) ruleAscendGated(c *Ctx) {
 				c.judge(ok, "R-ASCEND-GATED", key, in.Pos(), "a read of the "+t.what+"-side child dominates", fmt.Sprintf("%s moves the cursor up (or invalidates it) on a path where the %s-side child of the current node was never looked at: when that subtree is not empty all of its keys are skipped", t.name, t.what))
 			})
 		}
+	}
+}
+
+// rulePathComplete / R-PATH-FRESH.  Tree.Cursor(key) hands the root-to-node
+// search path to the cursor; Up/Prev/Next walk that path.  (a) In the search
+// (the function in Tree.Cursor's call scope that appends nodes to a slice in a
+// loop) every trip round the loop must append the node it is at: a back edge
+// that carries the path unchanged drops a node and the cursor's ancestors are
+// wrong.  (b) The slice stored into the new Cursor must have a provenance of
+// allocations only — a scratch buffer kept in the tree is overwritten by the
+// next lookup while the first cursor is still live.
+func (m *streeModel) rulePathComplete(c *Ctx) {
+	P := c.P
+	tc := P.Func("stree", "Tree", "Cursor")
+	if tc == nil {
+		c.undecided("ANCHOR", "stree.(*Tree).Cursor", 0, "not found")
+		return
+	}
+	isNodeSlice := func(t types.Type) bool {
+		sl, ok := t.Underlying().(*types.Slice)
+		return ok && isNamedOrigin(sl.Elem(), m.nodeT)
+	}
+	// (a)
+	nLoop := 0
+	for _, fn := range buildCallScope(tc).fns {
+		for _, b := range fn.Blocks {
+			for _, in := range b.Instrs {
+				ph, ok := in.(*ssa.Phi)
+				if !ok {
+					break
+				}
+				if !isNodeSlice(ph.Type()) {
+					continue
+				}
+				hasBack := false
+				for i := range ph.Edges {
+					if b.Dominates(b.Preds[i]) {
+						hasBack = true
+					}
+				}
+				if !hasBack {
+					continue
+				}
+				nLoop++
+				c.sawFn(fnName(fn))
+				key := fmt.Sprintf("%s:path loop #%d", fnName(fn), nLoop)
+				var bad token.Pos
+				var grows func(v ssa.Value, seen map[ssa.Value]bool) bool
+				grows = func(v ssa.Value, seen map[ssa.Value]bool) bool {
+					if seen[v] {
+						return true
+					}
+					seen[v] = true
+					switch x := v.(type) {
+					case *ssa.Call:
+						if ap, ok := isBuiltinCall(x, "append"); ok {
+							_ = ap
+							return true
+						}
+						return false
+					case *ssa.Phi:
+						if x == ph {
+							return false
+						}
+						for _, e := range x.Edges {
+							if !grows(e, seen) {
+								return false
+							}
+						}
+						return true
+					}
+					return false
+				}
+				okAll := true
+				for i, e := range ph.Edges {
+					if !b.Dominates(b.Preds[i]) {
+						continue
+					}
+					if !grows(e, map[ssa.Value]bool{}) {
+						okAll = false
+						bad = b.Preds[i].Instrs[len(b.Preds[i].Instrs)-1].Pos()
+					}
+				}
+				pos := ph.Pos()
+				if bad != token.NoPos {
+					pos = bad
+				}
+				c.judge(okAll, "R-PATH-COMPLETE", key, pos, "every trip round the loop appends to the path", "the search loop can go round without appending the node it is at: the path handed to the cursor has holes, so Up/Prev/Next reach the wrong ancestors")
+			}
+		}
+	}
+	if nLoop == 0 {
+		c.undecided("R-PATH-COMPLETE", "stree.(*Tree).Cursor:path loop", tc.Pos(), "no loop that grows a slice of nodes found under Tree.Cursor")
+	}
+	// (b)
+	for _, name := range []string{"Cursor", "Root"} {
+		fn := P.Func("stree", "Tree", name)
+		if fn == nil {
+			continue
+		}
+		oc := newOrig(fn)
+		allInstrs(fn, func(in ssa.Instruction) {
+			st, ok := in.(*ssa.Store)
+			if !ok {
+				return
+			}
+			fa, ok := st.Addr.(*ssa.FieldAddr)
+			if !ok {
+				return
+			}
+			if _, f := fieldVarOf(fa); !sameField(f, m.pathF) {
+				return
+			}
+			c.sawFn(fnName(fn))
+			o := oc.of(st.Val)
+			c.judge(o.onlyFresh(), "R-PATH-FRESH", fnName(fn)+":path of the new cursor", st.Pos(), "origin Fresh", fmt.Sprintf("the path given to the new cursor is not freshly allocated (origin %s): a later lookup that reuses the same storage rewrites the position of a cursor that is still in use", o))
+		})
+	}
+}
+
+// ruleLinkEdits: two rules on stores to child links in package stree.
+//
+// R-LINK-STALE: a link value read from X.f and later stored into a link must
+// still be current: no call that is handed X and may rewrite field f lies
+// between the read and the store (left, right := n.left, n.right;
+// popMinRight(n); goat.right = right — the successor may have been n.right).
+//
+// R-NIL-DROP: a store of nil into one link of a node that stays in the tree
+// (its other link is not cleared as well) cuts the old child off; the facts at
+// the store must say that the old child is nil or has no children, or the old
+// child must be hung somewhere else first.  Otherwise a subtree is dropped.
+func (m *streeModel) ruleLinkEdits(c *Ctx) {
+	P := c.P
+	c.rule("R-LINK-STALE", 2, "a child link that is copied into another link was read after the last call that could rewrite it")
+	c.rule("R-NIL-DROP", 1, "a link of a retained node is set to nil only when the old child is known to be nil or childless, or has been re-attached")
+	eff := newEff(P)
+	isLink := func(f *types.Var) bool { return sameField(f, m.leftF) || sameField(f, m.rightF) }
+	for _, fn := range P.PkgFuncs("stree") {
+		fn := fn
+		name := fnName(fn)
+		nStale, nNil := 0, 0
+		// nil stores per base, to recognise a node being isolated
+		nilStores := map[string]map[string]bool{}
+		allInstrs(fn, func(in ssa.Instruction) {
+			st, ok := in.(*ssa.Store)
+			if !ok || !isNilConst(st.Val) {
+				return
+			}
+			if fa, ok := st.Addr.(*ssa.FieldAddr); ok && isNamedOrigin(fa.X.Type(), m.nodeT) {
+				if _, f := fieldVarOf(fa); isLink(f) {
+					b := sym(fa.X)
+					if nilStores[b] == nil {
+						nilStores[b] = map[string]bool{}
+					}
+					nilStores[b][f.Name()] = true
+				}
+			}
+		})
+		allInstrs(fn, func(in ssa.Instruction) {
+			st, ok := in.(*ssa.Store)
+			if !ok {
+				return
+			}
+			fa, ok := st.Addr.(*ssa.FieldAddr)
+			if !ok || !isNamedOrigin(fa.X.Type(), m.nodeT) {
+				return
+			}
+			_, g := fieldVarOf(fa)
+			if !isLink(g) {
+				return
+			}
+			// ---- R-LINK-STALE
+			if ld, ok := st.Val.(*ssa.UnOp); ok && ld.Op == token.MUL {
+				if src, ok := ld.X.(*ssa.FieldAddr); ok && isNamedOrigin(src.X.Type(), m.nodeT) {
+					if _, f := fieldVarOf(src); isLink(f) {
+						nStale++
+						c.sawFn(name)
+						key := fmt.Sprintf("%s:%s.%s = %s.%s #%d", name, ksym(fa.X), g.Name(), ksym(src.X), f.Name(), nStale)
+						var killer ssa.Instruction
+						for _, mid := range instrsBetween(ld, st) {
+							call, isCall := mid.(*ssa.Call)
+							if !isCall || !eff.killsField(mid, f) {
+								continue
+							}
+							for _, a := range call.Call.Args {
+								if a == src.X || sym(a) == sym(src.X) {
+									killer = mid
+								}
+							}
+						}
+						if killer != nil {
+							c.bad("R-LINK-STALE", key, st.Pos(), fmt.Sprintf("%s.%s is read at line %d, then %s is handed to a call that can rewrite its .%s link (line %d), and only then the old value is stored into %s.%s: the link written may no longer be a child of %s — nodes are lost or linked twice", ksym(src.X), f.Name(), P.Fset.Position(ld.Pos()).Line, ksym(src.X), f.Name(), P.Fset.Position(killer.Pos()).Line, ksym(fa.X), g.Name(), ksym(src.X)))
+						} else {
+							c.ok("R-LINK-STALE", key, st.Pos(), "read after the last call that could rewrite it")
+						}
+					}
+				}
+			}
+			// ---- R-NIL-DROP
+			if isNilConst(st.Val) {
+				nNil++
+				c.sawFn(name)
+				base := sym(fa.X)
+				key := fmt.Sprintf("%s:%s.%s = nil #%d", name, ksym(fa.X), g.Name(), nNil)
+				if len(nilStores[base]) >= 2 {
+					c.ok("R-NIL-DROP", key, st.Pos(), "the node is being isolated (both links cleared)")
+					return
+				}
+				// the old child: loads of the same link that dominate the store
+				var olds []ssa.Value
+				allInstrs(fn, func(in2 ssa.Instruction) {
+					ld, ok := in2.(*ssa.UnOp)
+					if !ok || ld.Op != token.MUL {
+						return
+					}
+					if src, ok := ld.X.(*ssa.FieldAddr); ok && sym(src.X) == base {
+						if _, f := fieldVarOf(src); sameField(f, g) && dominatesInstr(ld, st) {
+							olds = append(olds, ld)
+						}
+					}
+				})
+				okDrop, why := false, "the old child is never examined"
+				for _, old := range olds {
+					nilKnown, lnil, rnil, moved := false, false, false, false
+					for _, cm := range cmpsAt(st.Block()) {
+						if cm.Op != token.EQL || !isNilConst(cm.Y) {
+							continue
+						}
+						if cm.X == old {
+							nilKnown = true
+						}
+						if b2, f2 := loadedField(cm.X); f2 != nil && (b2 == old || sym(b2) == sym(old)) {
+							if sameField(f2, m.leftF) {
+								lnil = true
+							}
+							if sameField(f2, m.rightF) {
+								rnil = true
+							}
+						}
+					}
+					// re-attached: some dominating store puts the old child into a link
+					allInstrs(fn, func(in2 ssa.Instruction) {
+						if s2, ok := in2.(*ssa.Store); ok && s2 != st && s2.Val == old && dominatesInstr(s2, st) {
+							if fa2, ok := s2.Addr.(*ssa.FieldAddr); ok {
+								if _, f2 := fieldVarOf(fa2); isLink(f2) {
+									moved = true
+								}
+							}
+						}
+					})
+					if nilKnown || moved || (lnil && rnil) {
+						okDrop = true
+					} else {
+						why = fmt.Sprintf("the old child %s is cut off, but only", ksym(old))
+						if lnil {
+							why += " its ." + m.leftF.Name() + " is known to be nil"
+						} else if rnil {
+							why += " its ." + m.rightF.Name() + " is known to be nil"
+						} else {
+							why += " nothing is known about its children"
+						}
+						why += ": the subtree under its other link is dropped from the tree"
+					}
+				}
+				c.judge(okDrop, "R-NIL-DROP", key, st.Pos(), "old child nil, childless or re-attached", why)
+			}
+		})
+	}
+}
+
+// countField: the integer field of Tree that Len returns.
+func (m *streeModel) countField() *types.Var {
+	lenFn := m.P.Func("stree", "Tree", "Len")
+	if lenFn == nil {
+		return nil
+	}
+	var sizeF *types.Var
+	allInstrs(lenFn, func(in ssa.Instruction) {
+		if ret, ok := in.(*ssa.Return); ok && len(ret.Results) == 1 {
+			if _, f := loadedField(ret.Results[0]); f != nil {
+				sizeF = f
+			}
+		}
+	})
+	return sizeF
+}
+
+// ruleReadOnly: the read-only operations of the tree — lookups, iteration,
+// cursor construction, cloning — leave every field of the tree and of its nodes
+// alone, in their own bodies, in the closures they create (iterators run later)
+// and in everything those call.  Iteration state kept in the tree is shared by
+// every iteration in progress, and by a clone.
+func (m *streeModel) ruleReadOnly(c *Ctx) {
+	P := c.P
+	c.rule("R-READONLY", 6, "Get, Min, Max, Len, IsEmpty, Inorder, InorderAfter, Cursor, Root, Clone and the cursor's read-only methods store to no field of Tree or node")
+	eff := newEff(P)
+	structOf := func(n *types.Named) *types.Struct {
+		if n == nil {
+			return nil
+		}
+		st, _ := n.Underlying().(*types.Struct)
+		return st
+	}
+	owned := map[*types.Var]string{}
+	for _, n := range []*types.Named{m.treeT, m.nodeT} {
+		if st := structOf(n); st != nil {
+			for i := 0; i < st.NumFields(); i++ {
+				owned[st.Field(i).Origin()] = n.Obj().Name() + "." + st.Field(i).Name()
+			}
+		}
+	}
+	for _, t := range [][2]string{{"Tree", "Get"}, {"Tree", "Min"}, {"Tree", "Max"}, {"Tree", "Len"}, {"Tree", "IsEmpty"}, {"Tree", "Inorder"}, {"Tree", "InorderAfter"}, {"Tree", "Cursor"}, {"Tree", "Root"}, {"Tree", "Clone"}, {"Cursor", "Key"}, {"Cursor", "Valid"}, {"Cursor", "Inorder"}, {"Cursor", "HasNext"}, {"Cursor", "HasPrev"}} {
+		fn := P.Func("stree", t[0], t[1])
+		if fn == nil {
+			continue
+		}
+		c.sawFn(fnName(fn))
+		var hits []string
+		for _, f := range withClosures(fn) {
+			e := eff.of(f)
+			for fld := range e.Fields {
+				if what, ok := owned[fld.Origin()]; ok {
+					// Clone writes the fields of the copies it allocates: stores on fresh allocations are not effects on the tree
+					if t[1] == "Clone" {
+						continue
+					}
+					hits = append(hits, what)
+				}
+			}
+		}
+		sortStrings(hits)
+		c.judge(len(hits) == 0, "R-READONLY", fnName(fn)+":no effect on the tree", fn.Pos(), "stores to no field of Tree or node", fmt.Sprintf("a read-only operation writes %v: state kept in the tree is shared by every lookup or iteration in progress (and by clones), so two of them disturb each other", hits))
 	}
 }
